@@ -24,3 +24,9 @@ add(
     "Exploration: Hypothesis-generated op programs (quick 6k, thorough 120k histories of up to 40 ops, swarm-selected opcodes) over 5 CFG nodes x 6 labels drive IR.cfg and a Python set in lock step; after every op length, duplicate-free iteration, membership of all 150 candidate edges, out_edges/in_edges of every node and the blocks' own incoming/outgoing views (attached, detached, other IR) are compared, including KeyError behaviour of remove/pop. Sampling of histories, not proof.",
     "Trusts CPython set semantics as the model, Hypothesis.",
 )
+add(
+    "C19",
+    "stateful model-based testing: constructor + op programs against a bytearray reference model, save/load inside the history",
+    "Exploration: Hypothesis-generated programs (quick 8k, thorough 100k; constructor variants incl. invalid ones, then <= 30 size / initialized_size / content / block offset+size / address edits, probes and save+load steps) run against a bytearray+size model; after every step initialized_size, contents, size, stored<=size, every block's address, contents slice, contains_offset/contains_address at all range boundaries are compared, and every save must load back. Sampling of histories, not proof.",
+    "Trusts the 40-line model in checks/c19_bytes.py (written from the property text and doc/general/ByteInterval.md), Hypothesis.",
+)
